@@ -51,6 +51,11 @@ pub struct C19Case {
     /// only makes its entry save)
     #[serde(default)]
     pub walk_again: bool,
+    /// kind 1: the consist first runs this many steps inside another `ConsistSimulation` (same
+    /// interval) and is then carried over, as it is, into the simulation under test (a new
+    /// trace for the same consist); only the consist's own tree is held to the statement then
+    #[serde(default)]
+    pub carry_over: usize,
 }
 
 fn build_u19(u: &U19, si: Option<usize>) -> anyhow::Result<Locomotive> {
@@ -217,7 +222,8 @@ impl C19 {
         let swap_consist = kind >= 2 && g.bool(0.15);
         let pre_steps = if kind <= 2 && g.bool(0.25) { g.usize(1, 12) } else { 0 };
         let walk_again = kind <= 2 && g.bool(0.1);
-        C19Case { kind, units, pdct, trace, train, interval, via_setter, initial, swap_consist, pre_steps, walk_again }
+        let carry_over = if kind == 1 && g.bool(0.15) { g.usize(1, 9) } else { 0 };
+        C19Case { kind, units, pdct, trace, train, interval, via_setter, initial, swap_consist, pre_steps, walk_again, carry_over }
     }
 
     fn check(case: &C19Case, cx: &mut Ctx) {
@@ -265,6 +271,69 @@ impl C19 {
                 }
                 r
             }};
+        }
+        // a consist carried over from an earlier simulation: counters of the simulation and of
+        // the consist legitimately differ; inside the consist's tree every history must list
+        // the same steps and every counter must agree
+        if case.kind == 1 && case.carry_over > 0 {
+            let out = catch(|| -> anyhow::Result<(Value, bool)> {
+                let locos = case.units.iter().map(|u| build_u19(u, case.interval)).collect::<anyhow::Result<Vec<_>>>()?;
+                let p = if case.pdct == 0 { PowerDistributionControlType::RESGreedy(RESGreedy) } else { PowerDistributionControlType::Proportional(Proportional) };
+                let con = Consist::new(locos, case.interval, p);
+                let mut first = ConsistSimulation::new(con, power_trace(), case.interval);
+                for _ in 0..case.carry_over {
+                    if first.i >= first.power_trace.len() {
+                        break;
+                    }
+                    first.step()?;
+                }
+                let mut sim = ConsistSimulation::new(first.loco_con.clone(), power_trace(), case.interval);
+                let r = sim.walk();
+                Ok((serde_json::to_value(&sim.loco_con)?, r.is_ok()))
+            });
+            let (v, ok) = match out {
+                Err(p) => {
+                    cx.discard(&format!("panic_in_code:{}", p.class()));
+                    return;
+                }
+                Ok(Err(e)) => {
+                    cx.discard(&format!("build_err:{}", msg_class(&format!("{e:#}"), 40)));
+                    return;
+                }
+                Ok(Ok(x)) => x,
+            };
+            cx.label("consist_carried_over_from_an_earlier_simulation");
+            cx.label(if ok { "run_ok" } else { "run_ended_with_err" });
+            let mut t = Tree::default();
+            walk(&v, "loco_con", &mut t);
+            for r in &t.ragged {
+                cx.fail("C19|ragged|history-columns-differ-in-length", r.clone());
+            }
+            if let Some((p0, col0)) = t.histories.first() {
+                for (p, col) in t.histories.iter().skip(1) {
+                    if col != col0 {
+                        cx.fail("C19|carry|histories-of-a-carried-over-consist-list-different-steps", format!("{p0}: {:?} ... ({} entries); {p}: {:?} ... ({} entries); interval {:?}, {} steps before the hand-over", &col0[..col0.len().min(8)], col0.len(), &col[..col.len().min(8)], col.len(), case.interval, case.carry_over));
+                        break;
+                    }
+                }
+                if let Some(n) = case.interval {
+                    if let Some(bad) = col0.iter().find(|k| **k % n as u64 != 0) {
+                        cx.fail("C19|carry|saved-step-is-not-a-multiple-of-the-interval", format!("{p0}: step {bad}, interval {n}"));
+                    }
+                }
+                if col0.len() >= 3 {
+                    cx.nontrivial();
+                }
+            }
+            if let Some((p0, i0)) = t.counters.first() {
+                for (p, i) in t.counters.iter().skip(1) {
+                    if i != i0 {
+                        cx.fail("C19|carry|counters-of-a-carried-over-consist-differ", format!("{p0}: {i0}; {p}: {i}"));
+                        break;
+                    }
+                }
+            }
+            return;
         }
         // run and serialise
         let out = catch(|| -> anyhow::Result<(Value, u64, bool)> {
